@@ -66,6 +66,10 @@ def plan(tier, seed):
         units.append({'kind': 'hkdf', 'flavour': fl, 'weight': 2})
         units.append({'kind': 'kdf', 'flavour': fl, 'weight': 1})
         units.append({'kind': 'sm3digest', 'flavour': fl, 'weight': 1})
+    if tier == 'quick':
+        # one message with bit length >= 2^32 per 32-bit-counter hash, so the length carry is exercised on every change
+        for alg in ('sm3', 'sha256', 'sha1'):
+            units.append({'kind': 'big', 'alg': alg, 'extra': 1, 'flavour': 'asan', 'weight': 30})
     if tier == 'thorough':
         for alg in ('sm3', 'sha1', 'sha256', 'sha512'):
             for extra in (0, 1, 63, 64):
